@@ -93,7 +93,10 @@ func (l *enumValueLoader) commentEnd(lex lexeme.LexEvent) {
 		panic(errs.ErrLoader.F())
 	}
 
-	l.enumConstraint.SetComment(l.lastIdx, lex.Value().String())
+	if l.lastIdx < l.enumConstraint.Len() {
+		// A comment before the first value has no value to be attached to.
+		l.enumConstraint.SetComment(l.lastIdx, lex.Value().String())
+	}
 	l.stateFunc = l.annotationEnd
 }
 
